@@ -158,7 +158,7 @@ func init() {
 	})
 }
 
-var c01Kinds = []string{"string", "bytes", "reader", "scanner", "lenient", "garbage", "func-reader", "slice-reader", "bytes.Buffer", "wrapped-eof-reader", "wrapped-eof-scanner"}
+var c01Kinds = []string{"string", "bytes", "reader", "scanner", "lenient", "garbage", "func-reader", "slice-reader", "bytes.Buffer", "wrapped-eof-reader", "wrapped-eof-scanner", "errorlist-reader", "errorlist-scanner"}
 
 // Byte sequences that are not valid UTF-8: a byte that never occurs, a lone
 // continuation byte, truncated two- and three-byte characters, an encoded
@@ -258,7 +258,7 @@ func TestC01(t *testing.T) {
 		})
 	}
 	st.Exhaustive = true
-	st.Note("exhaustive: all strings of <= %d tokens over the %d-token alphabet, blank-separated and concatenated, source kind rotating over string / []byte / io.Reader / custom RuneScanner / a RuneScanner whose UnreadRune steps back even after a failed read / one that returns a rune together with io.EOF / io.Readers of a func type and of a struct type with a slice field (not comparable) / *bytes.Buffer / an io.Reader and a RuneScanner that end with an error wrapping io.EOF (a failing read, for the parser), every 11th with a second call on the same source object, each under GODEBUG panicnil=0 and panicnil=1, ParseCommands (every 7th: ParseCommand; every 5th: an environment with an empty alias table)", maxn, len(gen.TokenAlphabet))
+	st.Note("exhaustive: all strings of <= %d tokens over the %d-token alphabet, blank-separated and concatenated, source kind rotating over string / []byte / io.Reader / custom RuneScanner / a RuneScanner whose UnreadRune steps back even after a failed read / one that returns a rune together with io.EOF / io.Readers of a func type and of a struct type with a slice field (not comparable) / *bytes.Buffer / an io.Reader and a RuneScanner that end with an error wrapping io.EOF (a failing read, for the parser) / an io.Reader that fails half-way and a RuneScanner that fails after two thirds with an error whose type is not comparable, every 11th with a second call on the same source object, each under GODEBUG panicnil=0 and panicnil=1, ParseCommands (every 7th: ParseCommand; every 5th: an environment with an empty alias table)", maxn, len(gen.TokenAlphabet))
 
 	// (i-b) byte sequences that are not valid UTF-8, in every kind of context
 	if sh == 0 {
@@ -300,6 +300,37 @@ func TestC01(t *testing.T) {
 			st.Class("large_flat_inputs")
 		}
 		st.Note("large flat inputs: 27 shapes of 10^4..6x10^6 repetitions (leading comment / blank / continuation lines, words, commands, pipeline and list operands, redirections, assignments, here-document lines, members of brace groups, if and case clauses, for words, comment lines inside a function body and after &&)")
+	}
+
+	// (i-b″) every construct that nests, 64 to 3000 levels deep, as a word in
+	// an argument, an assignment, double-quotes, a here-document line and a
+	// here-document line that goes on with a line continuation: the time may
+	// grow with the depth, not explode, and no table is that small
+	{
+		type nest struct{ name, open, mid, close string }
+		k := 0
+		for _, n := range []int{64, 300, 1100, 3000} {
+			for _, c := range []nest{
+				{"param", "${a:-", "x", "}"}, {"dqparam", "\"${a:-", "x", "}\""}, {"cmdsubst", "$(a ", "x", ")"}, {"bq-in-cmdsubst", "$(a `b ", "x", "`)"}, {"arith", "$((1+", "2", "))"}, {"pattern", "${a%", "x", "}"}, {"mixed", "${a:-$(b \"", "x", "\")}"},
+				{"subshell", "(", "a", ")"}, {"group", "{ ", "a;", " }"}, {"if", "if a; then ", "b;", " fi;"}, {"case", "case x in a) ", "b", " ;; esac"}, {"while", "while ", "a;", " do b; done;"}, {"func", "f() ", "a", ""}, {"pipe", "a | ", "b", ""}, {"andor", "! a && ", "b", ""},
+			} {
+				word := c.close != "" && strings.HasPrefix(c.open, "$") || strings.HasPrefix(c.open, "\"")
+				ctxs := []string{"%s\n"}
+				if word {
+					ctxs = []string{"x %s\n", "cat <<E\n%s\nE\n", "cat <<E\n%s\\\nE\nE\n", "v=%s\n", "echo \"%s\"\n", "x >%s\n", "case %s in esac\n"}
+				}
+				for _, ctx := range ctxs {
+					k++
+					if k%nsh != sh {
+						continue
+					}
+					src := fmt.Sprintf(ctx, strings.Repeat(c.open, n)+c.mid+strings.Repeat(c.close, n))
+					run(t, wproto.Req{Op: "parse", Src: src, Kind: c01Kinds[k%len(c01Kinds)], Cmd: k%3 == 0}, false)
+					st.Class("nesting_depth_64_to_3000")
+				}
+			}
+		}
+		st.Note("nesting: 15 constructs (parameter expansions plain / double-quoted / with a pattern, command substitutions, backquotes inside them, arithmetic expansions, a mix; subshells, groups, if, case, while, function bodies, pipelines, and-or lists) nested 64, 300, 1100 and 3000 deep; the word forms as argument, here-document line (also followed by a line continuation), assignment value, inside double-quotes, redirection target and case word")
 	}
 
 	// (i-c) small alias tables, systematically: a value that begins with another
